@@ -13,10 +13,22 @@ Fixpoint spec_run (st : wstate) (a stop step j : Z) (ops : list iop) : list iout
   match ops with
   | [] => []
   | IIter :: r => ONone :: spec_run st a stop step j r
+  | IRead :: r =>
+    (* reading the current event again: the event delivered by the last next() (index a+(j-1)*step) *)
+    OEv (thrown_upto st (a + (j - 1) * step)) (read_all_obs st (a + (j - 1) * step)) :: spec_run st a stop step j r
   | INext :: r =>
     (if stop <=? a + j * step then OStop
      else OEv (thrown_upto st (a + j * step)) (read_all_obs st (a + j * step)))
     :: spec_run st a stop step (j + 1) r
+  end.
+
+(* a history only re-reads an event that has been delivered (after a next() that found an event) *)
+Fixpoint reads_ok (a stop step j : Z) (ops : list iop) : Prop :=
+  match ops with
+  | [] => True
+  | IIter :: r => reads_ok a stop step j r
+  | IRead :: r => (1 <= j /\ a + (j - 1) * step < stop) /\ reads_ok a stop step j r
+  | INext :: r => reads_ok a stop step (j + 1) r
   end.
 
 Lemma it_thrown_eq : forall st it, it_thrown st it = thrown_upto st (it_event_number it).
@@ -25,16 +37,20 @@ Proof. reflexivity. Qed.
 Lemma it_run_spec_gen : forall st k a stop step, inv st -> ana_ok st -> 1 <= k -> 1 <= step -> 0 <= a ->
   stop <= n_events st ->
   forall ops c ss se data j, good st step c ss se data -> 0 <= j -> (c + 1) * step + ss = a + j * step ->
+  (1 <= j -> a + (j - 1) * step < stop -> 0 <= c /\ ss + c * step < se) ->
+  reads_ok a stop step j ops ->
   it_run st (mkIt k stop step c ss se data) ops = inr (spec_run st a stop step j ops).
 Proof.
-  intros st k a stop step I Hok Hk Hs Ha Hstop. induction ops as [|x r IH]; intros c ss se data j G Hj Hpos; simpl; auto.
+  intros st k a stop step I Hok Hk Hs Ha Hstop. induction ops as [|x r IH]; intros c ss se data j G Hj Hpos Hcur Hr; simpl; auto.
   destruct x; simpl.
   - (* next *)
     unfold it_next. simpl. rewrite Hpos.
     destruct G as [G0 [G1 [G2 G3]]].
     destruct (stop <=? a + j * step) eqn:E1.
-    + rewrite (IH (c + 1) ss se data (j + 1)); [reflexivity | | lia | lia].
-      split; [lia|]. split; [lia|]. split; [lia|]. exact G3.
+    + apply Z.leb_le in E1.
+      rewrite (IH (c + 1) ss se data (j + 1)); [reflexivity | | lia | lia | | exact Hr].
+      * split; [lia|]. split; [lia|]. split; [lia|]. exact G3.
+      * intros _ Hlt. replace (j + 1 - 1) with j in Hlt by lia. lia.
     + apply Z.leb_gt in E1. set (ev := a + j * step) in *.
       assert (Hev : 0 <= ev) by (unfold ev; nia).
       destruct (se <=? ev) eqn:E2.
@@ -48,26 +64,64 @@ Proof.
         -- split; [lia|]. split; [lia|]. split; [lia|]. intros c' Hc' Hlt'. apply ev_obs_spec; auto; lia.
         -- lia.
         -- unfold ev. lia.
+        -- intros _ _. lia.
+        -- exact Hr.
       * apply Z.leb_gt in E2.
-        rewrite (IH (c + 1) ss se data (j + 1)); [| | lia | lia].
+        rewrite (IH (c + 1) ss se data (j + 1)); [| | lia | lia | intros _ _; unfold ev in *; lia | exact Hr].
         -- rewrite it_thrown_eq. unfold it_event_number. simpl.
            rewrite (G3 (c + 1)) by lia.
            replace ((c + 1) * step + ss) with ev by (unfold ev; lia).
            replace (ss + (c + 1) * step) with ev by (unfold ev; lia). reflexivity.
         -- split; [lia|]. split; [lia|]. split; [lia|]. exact G3.
   - (* iter *)
-    rewrite (IH c ss se data j G Hj Hpos). reflexivity.
+    rewrite (IH c ss se data j G Hj Hpos Hcur Hr). reflexivity.
+  - (* read the current event again *)
+    destruct Hr as [[Hj1 Hlt] Hr]. destruct (Hcur Hj1 Hlt) as [Hc0 Hin].
+    destruct G as [G0 [G1 [G2 G3]]].
+    rewrite (IH c ss se data j (conj G0 (conj G1 (conj G2 G3))) Hj Hpos Hcur Hr).
+    rewrite it_thrown_eq. unfold it_event_number. simpl.
+    rewrite (G3 c Hc0 Hin).
+    replace (c * step + ss) with (a + (j - 1) * step) by lia.
+    replace (ss + c * step) with (a + (j - 1) * step) by lia. reflexivity.
 Qed.
 
 (* every history on an iterator made from in-range arguments *)
 Theorem it_run_spec : forall st k a b s it ops s0 e0 p0, inv st -> ana_ok st -> 1 <= k ->
-  iter_init st a b s = inr (s0, e0, p0) -> it_new st k a b s = inr it ->
+  iter_init st a b s = inr (s0, e0, p0) -> it_new st k a b s = inr it -> reads_ok s0 e0 p0 0 ops ->
   it_run st it ops = inr (spec_run st s0 e0 p0 0 ops).
 Proof.
-  intros st k a b s it ops s0 e0 p0 I Hok Hk Hi Hn. unfold it_new in Hn. rewrite Hi in Hn. inversion Hn; subst it.
+  intros st k a b s it ops s0 e0 p0 I Hok Hk Hi Hn Hr. unfold it_new in Hn. rewrite Hi in Hn. inversion Hn; subst it.
   destruct (iter_init_ok _ _ _ _ _ _ _ Hi) as [A [B [C _]]].
   apply it_run_spec_gen; auto; try lia.
   split; [lia|]. split; [lia|]. split; [lia|]. intros c' Hc' Hlt. nia.
+Qed.
+
+(* two live iterators over one file: what each delivers is its own history's result, whatever the
+   other one does in between (ops on one never change what the other, or an event it already
+   delivered, reports) *)
+Definition proj (w : bool) (ops : list (bool * iop)) : list iop :=
+  map snd (filter (fun x => Bool.eqb (fst x) w) ops).
+Fixpoint proj_out (w : bool) (ops : list (bool * iop)) (os : list iout) : list iout :=
+  match ops, os with
+  | (w', _) :: r, o :: os' => if Bool.eqb w' w then o :: proj_out w r os' else proj_out w r os'
+  | _, _ => []
+  end.
+
+Theorem two_iterators_independent : forall st ops i1 i2 os, it_run2 st i1 i2 ops = inr os ->
+  it_run st i1 (proj true ops) = inr (proj_out true ops os) /\
+  it_run st i2 (proj false ops) = inr (proj_out false ops os).
+Proof.
+  intros st. induction ops as [|[w x] r IH]; intros i1 i2 os H; simpl in H.
+  - inversion H. split; reflexivity.
+  - destruct w; simpl in H.
+    + destruct (it_op st i1 x) as [e|[it' o]] eqn:E; [discriminate|].
+      destruct (it_run2 st it' i2 r) as [e|os'] eqn:E2; [discriminate|]. inversion H; subst os.
+      destruct (IH _ _ _ E2) as [A B]. unfold proj. simpl. fold (proj true r). fold (proj false r).
+      rewrite E, A. split; [reflexivity | exact B].
+    + destruct (it_op st i2 x) as [e|[it' o]] eqn:E; [discriminate|].
+      destruct (it_run2 st i1 it' r) as [e|os'] eqn:E2; [discriminate|]. inversion H; subst os.
+      destruct (IH _ _ _ E2) as [A B]. unfold proj. simpl. fold (proj true r). fold (proj false r).
+      rewrite E, B. split; [exact A | reflexivity].
 Qed.
 
 (* the indices delivered by a history: a + j*step for j = 0, 1, ... (one per next call that finds
@@ -76,6 +130,7 @@ Fixpoint delivered (a stop step j : Z) (ops : list iop) : list Z :=
   match ops with
   | [] => []
   | IIter :: r => delivered a stop step j r
+  | IRead :: r => delivered a stop step j r
   | INext :: r => (if stop <=? a + j * step then [] else [a + j * step]) ++ delivered a stop step (j + 1) r
   end.
 
@@ -87,6 +142,7 @@ Proof.
     + destruct (stop <=? a + j * step); [contradiction|]. destruct Hin as [H|[]]. lia.
     + pose proof (IH _ _ _ _ _ Hs Hin). nia.
   - apply (IH _ _ _ _ _ Hs Hin).
+  - apply (IH _ _ _ _ _ Hs Hin).
 Qed.
 
 Theorem delivered_increasing : forall ops a stop step j, 1 <= step ->
@@ -94,7 +150,7 @@ Theorem delivered_increasing : forall ops a stop step j, 1 <= step ->
   nth i1 (delivered a stop step j ops) d < nth i2 (delivered a stop step j ops) d.
 Proof.
   induction ops as [|o r IH]; intros a stop step j Hs i1 i2 d H12 Hlen; simpl in *; [lia|].
-  destruct o; [| apply IH; auto].
+  destruct o; [| apply IH; auto | apply IH; auto].
   destruct (stop <=? a + j * step); simpl in *; [apply IH; auto|].
   destruct i2; [lia|]. destruct i1.
   - assert (Hin : In (nth i2 (delivered a stop step (j + 1) r) d) (delivered a stop step (j + 1) r)) by (apply nth_In; lia).
